@@ -12,7 +12,11 @@ Line: `w <patterns> <ancestor> <tree>` (strings are hex of valid UTF-8)
   tree:     comma separated tokens `f:<name>:<bits>` `l:<name>:<bits>` `d:<name>:<bits>` `[` `]`;
             `<bits>` = one 0/1 per pattern: does the pattern match this node's path (the
             abstract per-pattern match, supplied as a table by the real `Pattern.match`)
-Answer: `S=…;N=…;M=…;C=…;D=…;H=…`
+Line: `c <pattern>` — docker/ignore.go + patternmatcher.New cleaning of one pattern
+  → `ok <x|i> <cleaned>` | `err <kind>` (`unsupported` for patterns with brackets)
+Answer to `w`: `I=…;S=…;N=…;M=…;C=…;D=…;H=…`
+  I  per node, in walk order: what `Ignore(path, isDirectory)` answers — status letter
+     (n/i/u) followed by the traversal-continuation bit
   S  scan with the Docker-style ignorer + ReifyPhantomDirectories(ancestor, ·, nil): `path:kind,…`
   N  the directory count reification returns
   M  the non-recursive "deepest matched prefix wins + prefix pruning" characterisation (leaves);
@@ -151,8 +155,23 @@ def handle (line : String) : String :=
       let dspec := (dockerSpecLeaves excl text m ps cs).map showIncluded
       let dock := (dockerWalk excl text m ps cs).map showIncluded
       let h := noDepthOrderInversion excl m ps cs
-      s!"S={snap};N={count};M={showList spec};C={showList dspec};D={showList dock};H={if h then "1" else "0"}"
+      let ig := (allNodes cs).map fun n =>
+        let (st, c) := ign n.path (n.kind == 2)
+        (match st with | .nominal => "n" | .ignored => "i" | .unignored => "u") ++ (if c then "1" else "0")
+      s!"I={showList ig};S={snap};N={count};M={showList spec};C={showList dspec};D={showList dock};H={if h then "1" else "0"}"
     | _, _, _ => "bad-op"
+  | ["c", p] =>
+    match decStr p with
+    | some p =>
+      if p.contains '[' || p.contains ']' then "unsupported" else
+      match cleanPattern p with
+      | .ok (x, c) => s!"ok {if x then "x" else "i"} {encStr c}"
+      | .error e =>
+        let k := match e with
+          | .backslash => "backslash" | .empty => "empty" | .negatedEmpty => "negated-empty"
+          | .root => "root" | .illegalExclusion => "illegal-exclusion" | .dropped => "dropped"
+        s!"err {k}"
+    | none => "bad-op"
   | _ => "bad-op"
 
 end Mutagen.Driver.C15
